@@ -124,10 +124,12 @@ class CFLaplacian:
         for idx, v_obj in enumerate(ordered_vertices):
             s_vector[idx] = firing_script.get_firings(v_obj.name)
 
-        # 3. Calculate Ls_vector using NumPy
-        L_np = np.array(L_matrix)
-        s_np = np.array(s_vector)
-        Ls_vector = L_np.dot(s_np)  # Or L_np @ s_np
+        # 3. Calculate Ls_vector exactly, with Python integers (NumPy's fixed-width int64 product
+        #    overflows silently for large entries and returns NumPy scalars that the JSON writer rejects)
+        Ls_vector = [
+            sum(L_matrix[r_idx][c_idx] * s_vector[c_idx] for c_idx in range(num_vertices))
+            for r_idx in range(num_vertices)
+        ]
 
         # 4. Update resulting_degrees: D'[v_obj] = D[v_obj] - (Ls_vector)_idx
         for idx, v_obj in enumerate(ordered_vertices):
